@@ -768,6 +768,21 @@ func ruleMuxSer(c *Ctx) {
 		}
 	}
 	if lit == nil {
+		// muxDial is itself the dial step (knock, then open the stream) and the
+		// dialer closure that calls it lives in the caller: every call of it must
+		// come from a function literal, so that it runs once per transport
+		ci := p.Calls()
+		perDial := len(ci.callers[f]) > 0
+		for _, cs := range ci.callers[f] {
+			if cs.Caller == nil || cs.Caller.Lit == nil || cs.Kind != "call" {
+				perDial = false
+			}
+		}
+		if perDial {
+			lit = f
+		}
+	}
+	if lit == nil {
 		c.R.Undecided("R-MUXSER", f.Name, "dialer literal", "the dialer closure was not found")
 		return
 	}
